@@ -1,4 +1,6 @@
 
+type __ = Obj.t
+
 (** val negb : bool -> bool **)
 
 let negb = function
@@ -89,6 +91,19 @@ let rec rev_append l l' =
 let rec concat = function
 | [] -> []
 | x :: l0 -> app x (concat l0)
+
+(** val flat_map : ('a1 -> 'a2 list) -> 'a1 list -> 'a2 list **)
+
+let rec flat_map f = function
+| [] -> []
+| x :: t -> app (f x) (flat_map f t)
+
+(** val fold_left : ('a1 -> 'a2 -> 'a1) -> 'a2 list -> 'a1 -> 'a1 **)
+
+let rec fold_left f l a0 =
+  match l with
+  | [] -> a0
+  | b :: t -> fold_left f t (f a0 b)
 
 (** val firstn : nat -> 'a1 list -> 'a1 list **)
 
@@ -258,6 +273,11 @@ module Coq_Pos =
   | XI n' -> f (iter f (iter f x n') n')
   | XO n' -> iter f (iter f x n') n'
   | XH -> f x
+
+  (** val pow : positive -> positive -> positive **)
+
+  let pow x =
+    iter (mul x) XH
 
   (** val compare_cont : comparison -> positive -> positive -> comparison **)
 
@@ -460,6 +480,14 @@ module N =
                 | XI p -> Npos p
                 | XO p -> Npos p
                 | XH -> N0)
+
+  (** val pow : n -> n -> n **)
+
+  let pow n0 = function
+  | N0 -> Npos XH
+  | Npos p0 -> (match n0 with
+                | N0 -> N0
+                | Npos q -> Npos (Coq_Pos.pow q p0))
 
   (** val pos_div_eucl : positive -> n -> n * n **)
 
@@ -1590,3 +1618,529 @@ let logical s =
 
 let phys_init input =
   { win = []; rest = input; eof = false }
+
+type presence =
+| Mand
+| MandNE
+| Always
+| Opt
+| NonEmpty
+
+type ty =
+| TU of n
+| TI
+| TBool
+| TText
+| TBytes
+| TTime
+| TArr of ty
+| TIdx
+| TMap of bool * fields
+and fields =
+| FNil
+| FCons of z * presence * ty * fields
+
+type val0 =
+| VN of n
+| VZ of z
+| VB of bool
+| VS of n list
+| VL of val0 list
+| VR of val0 option list
+
+(** val op_uint : n -> n -> eop **)
+
+let op_uint bits n0 =
+  if N.eqb bits (Npos (XO (XO (XO XH))))
+  then OU8 n0
+  else if N.eqb bits (Npos (XO (XO (XO (XO XH)))))
+       then OU16 n0
+       else if N.eqb bits (Npos (XO (XO (XO (XO (XO XH))))))
+            then OU32 n0
+            else OU64 n0
+
+(** val op_key : bool -> z -> eop **)
+
+let op_key signed_keys k =
+  if signed_keys then OI8 k else OU8 (Z.to_N k)
+
+(** val present : presence -> val0 option -> bool **)
+
+let present p = function
+| Some x ->
+  (match p with
+   | NonEmpty ->
+     (match x with
+      | VL xs -> (match xs with
+                  | [] -> false
+                  | _ :: _ -> true)
+      | _ -> true)
+   | _ -> true)
+| None -> false
+
+(** val count_present : fields -> val0 option list -> n **)
+
+let rec count_present fs vs =
+  match fs with
+  | FNil -> N0
+  | FCons (_, p, _, r) ->
+    (match vs with
+     | [] -> N0
+     | v :: vs' ->
+       N.add (if present p v then Npos XH else N0) (count_present r vs'))
+
+(** val write_val : ty -> val0 -> eop list **)
+
+let rec write_val t v =
+  match t with
+  | TU bits -> (match v with
+                | VN n0 -> (op_uint bits n0) :: []
+                | _ -> [])
+  | TI -> (match v with
+           | VZ z0 -> (OI64 z0) :: []
+           | _ -> [])
+  | TBool -> (match v with
+              | VB b -> (OBool b) :: []
+              | _ -> [])
+  | TText -> (match v with
+              | VS bs -> (OText bs) :: []
+              | _ -> [])
+  | TBytes -> (match v with
+               | VS bs -> (OBytes bs) :: []
+               | _ -> [])
+  | TTime ->
+    (match v with
+     | VL xs ->
+       (match xs with
+        | [] -> []
+        | v0 :: l ->
+          (match v0 with
+           | VN s ->
+             (match l with
+              | [] -> []
+              | v1 :: l0 ->
+                (match v1 with
+                 | VN k ->
+                   (match l0 with
+                    | [] ->
+                      (OArr (Npos (XO XH))) :: ((OU64 s) :: ((OU64 k) :: []))
+                    | _ :: _ -> [])
+                 | _ -> []))
+           | _ -> []))
+     | _ -> [])
+  | TArr e ->
+    (match v with
+     | VL xs -> (OArr (N.of_nat (length xs))) :: (flat_map (write_val e) xs)
+     | _ -> [])
+  | TIdx ->
+    (match v with
+     | VL xs ->
+       (OArr
+         (N.of_nat (length xs))) :: (flat_map (fun x ->
+                                      match x with
+                                      | VN n0 -> (OU32 n0) :: []
+                                      | _ -> []) xs)
+     | _ -> [])
+  | TMap (sk, fs) ->
+    (match v with
+     | VR vs -> (OMap (count_present fs vs)) :: (write_fields sk fs vs)
+     | _ -> [])
+
+(** val write_fields : bool -> fields -> val0 option list -> eop list **)
+
+and write_fields sk fs vs =
+  match fs with
+  | FNil -> []
+  | FCons (k, p, t, r) ->
+    (match vs with
+     | [] -> []
+     | v :: vs' ->
+       app
+         (match v with
+          | Some x ->
+            if present p v then (op_key sk k) :: (write_val t x) else []
+          | None -> []) (write_fields sk r vs'))
+
+type has_ty = __
+
+(** val read_time : val0 prog **)
+
+let read_time =
+  bind read_array_start (fun st ->
+    let (n0, indef) = st in
+    if indef
+    then bind peek_type (fun pk ->
+           match pk with
+           | Some _ ->
+             bind read_unsigned (fun s ->
+               bind peek_type (fun pk0 ->
+                 match pk0 with
+                 | Some _ ->
+                   bind read_unsigned (fun k ->
+                     bind peek_type (fun pk1 ->
+                       match pk1 with
+                       | Some _ -> Throw EDec
+                       | None ->
+                         bind read_break (fun _ -> Ret (VL ((VN s) :: ((VN
+                           k) :: []))))))
+                 | None -> bind read_break (fun _ -> Throw EDec)))
+           | None -> bind read_break (fun _ -> Throw EDec))
+    else if N.eqb n0 N0
+         then Throw EDec
+         else bind read_unsigned (fun s ->
+                if N.eqb n0 (Npos XH)
+                then Throw EDec
+                else bind read_unsigned (fun k ->
+                       if N.eqb n0 (Npos (XO XH))
+                       then Ret (VL ((VN s) :: ((VN k) :: [])))
+                       else Throw EDec)))
+
+(** val arr_loop :
+    val0 prog -> nat -> n -> bool -> val0 list -> val0 list prog **)
+
+let rec arr_loop rd g n0 indef racc =
+  if (&&) (N.eqb n0 N0) (negb indef)
+  then Ret (frev racc)
+  else (match g with
+        | O -> Throw EFuel
+        | S g' ->
+          if indef
+          then bind peek_type (fun pk ->
+                 match pk with
+                 | Some _ ->
+                   bind rd (fun v ->
+                     arr_loop rd g' (N.sub n0 (Npos XH)) indef (v :: racc))
+                 | None -> bind read_break (fun _ -> Ret (frev racc)))
+          else bind rd (fun v ->
+                 arr_loop rd g' (N.sub n0 (Npos XH)) indef (v :: racc)))
+
+(** val read_arr : val0 prog -> nat -> val0 prog **)
+
+let read_arr rd g =
+  bind read_array_start (fun st ->
+    bind (arr_loop rd g (fst st) (snd st) []) (fun xs -> Ret (VL xs)))
+
+(** val read_idx : nat -> val0 prog **)
+
+let read_idx g =
+  bind read_array_start (fun st -> Reserve ((reserve_req (fst st)),
+    (bind
+      (arr_loop
+        (bind read_unsigned (fun v -> Ret (VN
+          (N.modulo v
+            (N.pow (Npos (XO XH)) (Npos (XO (XO (XO (XO (XO XH))))))))))) g
+        (fst st) (snd st) []) (fun xs -> Ret (VL xs)))))
+
+(** val set_nth : nat -> 'a1 -> 'a1 list -> 'a1 list **)
+
+let rec set_nth i x l =
+  match i with
+  | O -> (match l with
+          | [] -> []
+          | _ :: l' -> x :: l')
+  | S i' -> (match l with
+             | [] -> []
+             | a :: l' -> a :: (set_nth i' x l'))
+
+(** val init_rec : fields -> val0 option list **)
+
+let rec init_rec = function
+| FNil -> []
+| FCons (_, p, _, r) ->
+  (match p with
+   | NonEmpty -> Some (VL [])
+   | _ -> None) :: (init_rec r)
+
+(** val mand_ok : fields -> val0 option list -> bool **)
+
+let rec mand_ok fs vs =
+  match fs with
+  | FNil -> true
+  | FCons (_, p, _, r) ->
+    (match vs with
+     | [] -> true
+     | v :: vs' ->
+       (&&)
+         (match p with
+          | Mand -> (match v with
+                     | Some _ -> true
+                     | None -> false)
+          | MandNE ->
+            (match v with
+             | Some v0 ->
+               (match v0 with
+                | VL xs -> (match xs with
+                            | [] -> false
+                            | _ :: _ -> true)
+                | _ -> true)
+             | None -> false)
+          | _ -> true) (mand_ok r vs'))
+
+(** val zero_of : ty -> val0 **)
+
+let zero_of = function
+| TU _ -> VN N0
+| TI -> VZ Z0
+| TBool -> VB false
+| TText -> VS []
+| TBytes -> VS []
+| TTime -> VL ((VN N0) :: ((VN N0) :: []))
+| TMap (_, _) -> VR []
+| _ -> VL []
+
+(** val fill_always : fields -> val0 option list -> val0 option list **)
+
+let rec fill_always fs vs =
+  match fs with
+  | FNil -> vs
+  | FCons (_, p, t, r) ->
+    (match vs with
+     | [] -> vs
+     | v :: vs' ->
+       (match p with
+        | Always -> (match v with
+                     | Some _ -> v
+                     | None -> Some (zero_of t))
+        | _ -> v) :: (fill_always r vs'))
+
+(** val map_loop :
+    (z -> (nat * val0 prog) option) -> unit prog -> nat -> n -> bool -> val0
+    option list -> val0 option list prog **)
+
+let rec map_loop rdk sk g n0 indef rec0 =
+  if (&&) (N.eqb n0 N0) (negb indef)
+  then Ret rec0
+  else (match g with
+        | O -> Throw EFuel
+        | S g' ->
+          let body =
+            bind read_integer (fun key ->
+              match rdk key with
+              | Some p ->
+                let (i, rd) = p in
+                bind rd (fun v ->
+                  map_loop rdk sk g' (N.sub n0 (Npos XH)) indef
+                    (set_nth i (Some v) rec0))
+              | None ->
+                bind sk (fun _ ->
+                  map_loop rdk sk g' (N.sub n0 (Npos XH)) indef rec0))
+          in
+          if indef
+          then bind peek_type (fun pk ->
+                 match pk with
+                 | Some _ -> body
+                 | None -> bind read_break (fun _ -> Ret rec0))
+          else body)
+
+(** val read_val : nat -> ty -> val0 prog **)
+
+let rec read_val g = function
+| TU bits ->
+  bind read_unsigned (fun v -> Ret (VN
+    (N.modulo v (N.pow (Npos (XO XH)) bits))))
+| TI -> bind read_integer (fun z0 -> Ret (VZ z0))
+| TBool -> bind read_bool (fun b -> Ret (VB b))
+| TText -> bind (read_textstring g) (fun s -> Ret (VS s))
+| TBytes -> bind (read_bytestring g) (fun s -> Ret (VS s))
+| TTime -> read_time
+| TArr e -> read_arr (read_val g e) g
+| TIdx -> read_idx g
+| TMap (_, fs) ->
+  bind read_map_start (fun st ->
+    bind
+      (map_loop (find_field g fs O) (skip_item g) g (fst st) (snd st)
+        (init_rec fs)) (fun rec0 ->
+      if mand_ok fs rec0 then Ret (VR (fill_always fs rec0)) else Throw EDec))
+
+(** val find_field : nat -> fields -> nat -> z -> (nat * val0 prog) option **)
+
+and find_field g fs i x =
+  match fs with
+  | FNil -> None
+  | FCons (k, _, t, r) ->
+    if Z.eqb x k then Some (i, (read_val g t)) else find_field g r (S i) x
+
+(** val u8 : ty **)
+
+let u8 =
+  TU (Npos (XO (XO (XO XH))))
+
+(** val u16 : ty **)
+
+let u16 =
+  TU (Npos (XO (XO (XO (XO XH)))))
+
+(** val u32 : ty **)
+
+let u32 =
+  TU (Npos (XO (XO (XO (XO (XO XH))))))
+
+(** val u64 : ty **)
+
+let u64 =
+  TU (Npos (XO (XO (XO (XO (XO (XO XH)))))))
+
+(** val mk_fields : ((z * presence) * ty) list -> fields **)
+
+let rec mk_fields = function
+| [] -> FNil
+| p0 :: r ->
+  let (p1, t) = p0 in let (k, p) = p1 in FCons (k, p, t, (mk_fields r))
+
+(** val s_ : ((z * presence) * ty) list -> ty **)
+
+let s_ l =
+  TMap (false, (mk_fields l))
+
+(** val storageHints : ty **)
+
+let storageHints =
+  s_ (((Z0, Mand), u32) :: ((((Zpos XH), Mand), u32) :: ((((Zpos (XO XH)),
+    Mand), u8) :: ((((Zpos (XI XH)), Mand), u8) :: []))))
+
+(** val storageParameters : ty **)
+
+let storageParameters =
+  s_ (((Z0, Mand), u64) :: ((((Zpos XH), Mand), u64) :: ((((Zpos (XO XH)),
+    Mand), storageHints) :: ((((Zpos (XI XH)), Mand), (TArr u8)) :: ((((Zpos
+    (XO (XO XH))), Mand), (TArr u16)) :: ((((Zpos (XI (XO XH))), Opt),
+    u8) :: ((((Zpos (XO (XI XH))), Opt), u8) :: ((((Zpos (XI (XI XH))), Opt),
+    u8) :: ((((Zpos (XO (XO (XO XH)))), Opt), u8) :: ((((Zpos (XI (XO (XO
+    XH)))), Opt), u8) :: ((((Zpos (XO (XI (XO XH)))), Opt),
+    TText) :: ((((Zpos (XI (XI (XO XH)))), Opt), TText) :: []))))))))))))
+
+(** val collectionParameters : ty **)
+
+let collectionParameters =
+  s_ (((Z0, Opt), u64) :: ((((Zpos XH), Opt), u64) :: ((((Zpos (XO XH)),
+    Opt), u64) :: ((((Zpos (XI XH)), Opt), TBool) :: ((((Zpos (XO (XO XH))),
+    NonEmpty), (TArr TText)) :: ((((Zpos (XI (XO XH))), NonEmpty), (TArr
+    TBytes)) :: ((((Zpos (XO (XI XH))), NonEmpty), (TArr u16)) :: ((((Zpos
+    (XI (XI XH))), Opt), TText) :: ((((Zpos (XO (XO (XO XH)))), Opt),
+    TText) :: ((((Zpos (XI (XO (XO XH)))), Opt), TText) :: []))))))))))
+
+(** val blockParameters : ty **)
+
+let blockParameters =
+  s_ (((Z0, Mand), storageParameters) :: ((((Zpos XH), Opt),
+    collectionParameters) :: []))
+
+(** val filePreamble : ty **)
+
+let filePreamble =
+  s_ (((Z0, Mand), u8) :: ((((Zpos XH), Mand), u8) :: ((((Zpos (XO XH)),
+    Opt), u8) :: ((((Zpos (XI XH)), MandNE), (TArr blockParameters)) :: []))))
+
+(** val classType : ty **)
+
+let classType =
+  s_ (((Z0, Mand), u16) :: ((((Zpos XH), Mand), u16) :: []))
+
+(** val queryResponseSignature : ty **)
+
+let queryResponseSignature =
+  s_ (((Z0, Opt), u32) :: ((((Zpos XH), Opt), u16) :: ((((Zpos (XO XH)),
+    Opt), u8) :: ((((Zpos (XI XH)), Opt), u8) :: ((((Zpos (XO (XO XH))),
+    Opt), u8) :: ((((Zpos (XI (XO XH))), Opt), u8) :: ((((Zpos (XO (XI XH))),
+    Opt), u16) :: ((((Zpos (XI (XI XH))), Opt), u16) :: ((((Zpos (XO (XO (XO
+    XH)))), Opt), u32) :: ((((Zpos (XI (XO (XO XH)))), Opt), u16) :: ((((Zpos
+    (XO (XI (XO XH)))), Opt), u32) :: ((((Zpos (XI (XI (XO XH)))), Opt),
+    u16) :: ((((Zpos (XO (XO (XI XH)))), Opt), u16) :: ((((Zpos (XI (XO (XI
+    XH)))), Opt), u8) :: ((((Zpos (XO (XI (XI XH)))), Opt), u16) :: ((((Zpos
+    (XI (XI (XI XH)))), Opt), u32) :: ((((Zpos (XO (XO (XO (XO XH))))), Opt),
+    u16) :: [])))))))))))))))))
+
+(** val question : ty **)
+
+let question =
+  s_ (((Z0, Mand), u32) :: ((((Zpos XH), Mand), u32) :: []))
+
+(** val rR : ty **)
+
+let rR =
+  s_ (((Z0, Mand), u32) :: ((((Zpos XH), Mand), u32) :: ((((Zpos (XO XH)),
+    Opt), u32) :: ((((Zpos (XI XH)), Opt), u32) :: []))))
+
+(** val malformedMessageData : ty **)
+
+let malformedMessageData =
+  s_ (((Z0, Opt), u32) :: ((((Zpos XH), Opt), u16) :: ((((Zpos (XO XH)),
+    Opt), u8) :: ((((Zpos (XI XH)), Opt), TBytes) :: []))))
+
+(** val responseProcessingData : ty **)
+
+let responseProcessingData =
+  s_ (((Z0, Opt), u32) :: ((((Zpos XH), Opt), u8) :: []))
+
+(** val queryResponseExtended : ty **)
+
+let queryResponseExtended =
+  s_ (((Z0, Opt), u32) :: ((((Zpos XH), Opt), u32) :: ((((Zpos (XO XH)),
+    Opt), u32) :: ((((Zpos (XI XH)), Opt), u32) :: []))))
+
+(** val blockPreamble : ty **)
+
+let blockPreamble =
+  s_ (((Z0, Always), TTime) :: ((((Zpos XH), Opt), u32) :: []))
+
+(** val blockStatistics : ty **)
+
+let blockStatistics =
+  s_ (((Z0, Opt), u32) :: ((((Zpos XH), Opt), u32) :: ((((Zpos (XO XH)),
+    Opt), u32) :: ((((Zpos (XI XH)), Opt), u32) :: ((((Zpos (XO (XO XH))),
+    Opt), u32) :: ((((Zpos (XI (XO XH))), Opt), u32) :: []))))))
+
+(** val queryResponse : ty **)
+
+let queryResponse =
+  TMap (true,
+    (mk_fields (((Z0, Opt), u64) :: ((((Zpos XH), Opt), u32) :: ((((Zpos (XO
+      XH)), Opt), u16) :: ((((Zpos (XI XH)), Opt), u16) :: ((((Zpos (XO (XO
+      XH))), Opt), u32) :: ((((Zpos (XI (XO XH))), Opt), u8) :: ((((Zpos (XO
+      (XI XH))), Opt), TI) :: ((((Zpos (XI (XI XH))), Opt), u32) :: ((((Zpos
+      (XO (XO (XO XH)))), Opt), u64) :: ((((Zpos (XI (XO (XO XH)))), Opt),
+      u64) :: ((((Zpos (XO (XI (XO XH)))), Opt),
+      responseProcessingData) :: ((((Zpos (XI (XI (XO XH)))), Opt),
+      queryResponseExtended) :: ((((Zpos (XO (XO (XI XH)))), Opt),
+      queryResponseExtended) :: ((((Zneg XH), Opt), TText) :: ((((Zneg (XO
+      XH)), Opt), TText) :: ((((Zneg (XI XH)), Opt),
+      TI) :: []))))))))))))))))))
+
+(** val addressEventCount : ty **)
+
+let addressEventCount =
+  s_ (((Z0, Mand), u8) :: ((((Zpos XH), Opt), u8) :: ((((Zpos (XO XH)),
+    Mand), u32) :: ((((Zpos (XI XH)), Opt), u8) :: ((((Zpos (XO (XO XH))),
+    Mand), u64) :: [])))))
+
+(** val malformedMessage : ty **)
+
+let malformedMessage =
+  s_ (((Z0, Opt), u64) :: ((((Zpos XH), Opt), u32) :: ((((Zpos (XO XH)),
+    Opt), u16) :: ((((Zpos (XI XH)), Opt), u32) :: []))))
+
+(** val blockTables : ty **)
+
+let blockTables =
+  s_ (((Z0, NonEmpty), (TArr TBytes)) :: ((((Zpos XH), NonEmpty), (TArr
+    classType)) :: ((((Zpos (XO XH)), NonEmpty), (TArr TBytes)) :: ((((Zpos
+    (XI XH)), NonEmpty), (TArr queryResponseSignature)) :: ((((Zpos (XO (XO
+    XH))), NonEmpty), (TArr TIdx)) :: ((((Zpos (XI (XO XH))), NonEmpty),
+    (TArr question)) :: ((((Zpos (XO (XI XH))), NonEmpty), (TArr
+    TIdx)) :: ((((Zpos (XI (XI XH))), NonEmpty), (TArr rR)) :: ((((Zpos (XO
+    (XO (XO XH)))), NonEmpty), (TArr malformedMessageData)) :: [])))))))))
+
+(** val block : ty **)
+
+let block =
+  s_ (((Z0, Mand), blockPreamble) :: ((((Zpos XH), Opt),
+    blockStatistics) :: ((((Zpos (XO XH)), Opt), blockTables) :: ((((Zpos (XI
+    XH)), NonEmpty), (TArr queryResponse)) :: ((((Zpos (XO (XO XH))),
+    NonEmpty), (TArr addressEventCount)) :: ((((Zpos (XI (XO XH))),
+    NonEmpty), (TArr malformedMessage)) :: []))))))
+
+(** val write_struct : ty -> val0 -> n list * n **)
+
+let write_struct t v =
+  let (e, rs) = eruns enc_init (write_val t v) in
+  ((stream (flush e)), (fold_left N.add rs N0))
